@@ -3,6 +3,8 @@
   One request per line (fields separated by TAB), one reply per line.
 -/
 import Driver.Codec
+import RevalModel.Impl.RuleSet
+import RevalModel.Spec.OperatorTable
 
 open Reval Reval.Codec
 
@@ -17,6 +19,23 @@ def handle (line : String) : String :=
         encRes encValue r ++ "\t" ++ encEvents evs ++ "\t" ++ toString st.calls
       | none => "bad-request env"
     | _, _, _ => "bad-request eval"
+  | ["ruleset", rules, facts, env, oracle] =>
+    match parse rules, parse facts >>= decValue, parse oracle >>= decOracle with
+    | some (.list (.atom "rules" :: rs)), some facts, some o =>
+      match rs.mapM decExpr, parse env >>= decEnv facts o with
+      | some rs, some env =>
+        let (outs, st, evs) := evaluateValue env rs
+        "(outcomes" ++ String.join (outs.map (fun r => " " ++ encRes encValue r)) ++ ")\t" ++ encEvents evs ++ "\t" ++ toString st.calls
+      | _, _ => "bad-request ruleset"
+    | _, _, _ => "bad-request ruleset"
+  | ["supported", "un", op, ty] =>
+    match decUnOp op, decTy ty with
+    | some op, some t => if t ∈ op.sig then "1" else "0"
+    | _, _ => "bad-request supported"
+  | ["supported", "bin", op, ta, tb] =>
+    match decBinOp op, decTy ta, decTy tb with
+    | some op, some a, some b => if (a, b) ∈ op.sig then "1" else "0"
+    | _, _, _ => "bad-request supported"
   | ["ping"] => "pong"
   | _ => "bad-request"
 
